@@ -59,6 +59,7 @@ func (e *Engine) VerifyFunc(fn *ssa.Function, con *Contract) (g *Gen, err error)
 	if con != nil {
 		names = con.Params
 	}
+	bindName := contractBinding(fn, names)
 	idx := 0
 	bind := func(v ssa.Value, kind string) {
 		pname := v.Name()
@@ -69,8 +70,8 @@ func (e *Engine) VerifyFunc(fn *ssa.Function, con *Contract) (g *Gen, err error)
 		val := &Val{T: c, Ty: v.Type()}
 		g.vals[v] = val
 		g.assumeTypeInv(val, "brk0")
-		if idx < len(names) && names[idx] != "_" {
-			g.env[names[idx]] = val
+		if idx < len(bindName) && bindName[idx] != "" && bindName[idx] != "_" {
+			g.env[bindName[idx]] = val
 		}
 		idx++
 	}
@@ -1587,4 +1588,61 @@ func (g *Gen) prescanCalls() {
 			}
 		}
 	}
+}
+
+
+// contractBinding maps a contract's parameter names onto a function's free variables
+// and parameters (in that order): BY NAME where the function has a value of that name
+// (robust against a changed capture order or an added captured variable), by position
+// for the rest.  Entry i is the contract name bound to the i-th value ("" = none).
+func contractBinding(fn *ssa.Function, names []string) []string {
+	var allVals []ssa.Value
+	for _, fv := range fn.FreeVars {
+		allVals = append(allVals, fv)
+	}
+	for _, p := range fn.Params {
+		allVals = append(allVals, p)
+	}
+	valName := map[string]int{}
+	for i, v := range allVals {
+		if v.Name() != "_" && v.Name() != "" {
+			if _, dup := valName[v.Name()]; !dup {
+				valName[v.Name()] = i
+			}
+		}
+	}
+	bindName := make([]string, len(allVals))
+	nameUsed := make([]bool, len(names))
+	for ni, n := range names {
+		if n == "_" {
+			continue
+		}
+		if i, ok := valName[n]; ok && bindName[i] == "" {
+			bindName[i] = n
+			nameUsed[ni] = true
+		}
+	}
+	if len(names) == len(allVals) {
+		vi := 0
+		for ni, n := range names {
+			if nameUsed[ni] {
+				continue
+			}
+			for vi < len(allVals) && bindName[vi] != "" {
+				vi++
+			}
+			if vi < len(allVals) {
+				bindName[vi] = n
+				vi++
+			}
+		}
+	} else {
+		for ni, n := range names {
+			if nameUsed[ni] || ni >= len(allVals) || bindName[ni] != "" {
+				continue
+			}
+			bindName[ni] = n
+		}
+	}
+	return bindName
 }
